@@ -70,11 +70,14 @@ func parseHTTPDateCompat(dateStr string) (t time.Time, err error) {
 }
 
 func (r *Response) ExpiresHeader() (t time.Time, found bool, valid bool) {
-	expiresStr := r.Data.Header.Get("Expires")
-	if expiresStr == "" {
+	values := r.Data.Header.Values("Expires")
+	if len(values) == 0 {
 		return
 	}
+	// A field that is present but empty is an invalid date: "already
+	// expired" (RFC 9111 §5.3), not "absent".
 	found = true
+	expiresStr := values[0]
 	if t, valid = RawTime(expiresStr).Value(); valid {
 		return
 	}
